@@ -1,5 +1,159 @@
-import Banyan.Model.Util
-open Banyan
+import Banyan.Model.C05
+open Banyan Banyan.C05
 
-/- stub: model driver for C05 not built yet -/
-def main : IO Unit := runDriver fun _ => "bad-op"
+/-! Model driver for C05: same line protocol as hooks/banyand/internal/verifdrv/c05. -/
+
+def insertBy {α : Type} (lt : α → α → Bool) (a : α) : List α → List α
+  | [] => [a]
+  | b :: l => if lt a b then a :: b :: l else b :: insertBy lt a l
+
+def sortBy {α : Type} (lt : α → α → Bool) (l : List α) : List α := l.foldr (insertBy lt) []
+
+def kindStr (mem : Bool) : String := if mem then "m" else "f"
+
+def rmStr (b : Bool) : String := if b then "1" else "0"
+
+def showPart (st : State) (w : Nat) : String := s!"{(st.P w).pid}{kindStr (st.P w).mem}"
+
+def showList (st : State) (s : Nat) : String :=
+  "[" ++ ",".intercalate ((st.S s).parts.map (showPart st)) ++ "]"
+
+/-- "ord x rows" per batch ordinal, 4 rows per occurrence -/
+def showOrds (l : List Nat) : String :=
+  let sorted := sortBy (fun a b => a < b) l
+  let rec grp : List Nat → List (Nat × Nat)
+    | [] => []
+    | a :: r =>
+      match grp r with
+      | (b, n) :: rest => if a = b then (b, n + 1) :: rest else (a, 1) :: (b, n) :: rest
+      | [] => [(a, 1)]
+  let g := grp sorted
+  if g.isEmpty then "-" else "+".intercalate (g.map fun e => s!"{e.1}x{4 * e.2}")
+
+def showQuery (st : State) (s : Nat) : String :=
+  let per := (st.S s).parts.map fun w => s!"{showPart st w}={showOrds (st.P w).src}"
+  ",".intercalate per ++ "/" ++ showOrds (view st s)
+
+def dump (st : State) : String :=
+  let c := match st.cur with
+    | none => "C=-"
+    | some c => s!"C={(st.S c).epoch}:{(st.S c).ref}:{showList st c}"
+  let ws := sortBy (fun a b => (st.P a).pid < (st.P b).pid || ((st.P a).pid == (st.P b).pid && (st.P a).mem && !(st.P b).mem))
+    (List.range st.nP)
+  let w := ",".intercalate (ws.map fun i => s!"{showPart st i}:{(st.P i).ref}:{rmStr (st.P i).removable}")
+  let hs := sortBy (fun a b => a.1 < b.1) (st.holders.filter fun e => e.1 ≠ 0)
+  let h := ";".intercalate (hs.map fun e => s!"{e.1 - 1}:{(st.S e.2).epoch}:{(st.S e.2).ref}:{showList st e.2}")
+  let q := ";".intercalate (hs.map fun e => s!"{e.1 - 1}:{showQuery st e.2}")
+  let dirs := sortBy (fun a b => a < b) (((List.range st.nP).filter (dirExists st)).map fun i => (st.P i).pid)
+  let d := ",".intercalate (dirs.map toString)
+  let t := match st.cur with
+    | none => "-"
+    | some c => showQuery st c
+  s!"{c} W={w} H={h} D={d} Q={q} T={t}"
+
+def parseIds (s : String) : Option (List Nat) :=
+  ((s.splitOn ",").filter (· ≠ "")).mapM String.toNat?
+
+/-- one op token → (prefix printed by the Go driver, new state) -/
+def applyTok (st : State) (tok : String) : Option (String × State) :=
+  let closedPfx := if st.tblClosed then "closed " else ""
+  if tok == "b" then some (closedPfx, step st .batch)
+  else if tok == "fa" then some (closedPfx, step st (.flush none))
+  else if tok == "c" then some (closedPfx, step st .close)
+  else if tok.startsWith "f:" then (parseIds (tok.drop 2).toString).map fun ids => (closedPfx, step st (.flush (some ids)))
+  else if tok.startsWith "m:" then (parseIds (tok.drop 2).toString).map fun ids => (closedPfx, step st (.merge ids))
+  else if tok.startsWith "s:" then (parseIds (tok.drop 2).toString).map fun ids => (closedPfx, step st (.syncRemove ids))
+  else if tok.startsWith "a" then
+    (tok.drop 1).toString.toNat?.map fun k =>
+      let fails := (findHolder (k + 1) st.holders).isSome || st.cur.isNone
+      (if fails then "nil " else "", step st (.acquire k))
+  else if tok.startsWith "r" then
+    (tok.drop 1).toString.toNat?.map fun k =>
+      ((if (findHolder (k + 1) st.holders).isNone then "nil " else ""), step st (.release k))
+  else none
+
+def runMs (toks : List String) : String :=
+  let rec go (st : State) (acc : List String) : List String → Option (List String)
+    | [] => some acc.reverse
+    | t :: ts =>
+      match applyTok st t with
+      | none => none
+      | some (pfx, st') => go st' ((pfx ++ dump st') :: acc) ts
+  match go init [] toks with
+  | none => "bad-op"
+  | some l => " | ".intercalate l
+
+/-! ### tx -/
+
+structure TxSt where
+  w : Txn.World
+  txns : List (Txn.Transaction × Bool)   -- (transaction, dead)
+
+def txInit : TxSt :=
+  { w := { ref := fun j => if j < 2 then 1 else 0, nSnap := 2,
+           cur := fun m => if m = 0 then some 0 else if m = 1 then some 1 else none },
+    txns := [] }
+
+def txDump (s : TxSt) : String :=
+  let c := ",".intercalate ((List.range 3).map fun m => match s.w.cur m with | none => "-" | some i => toString i)
+  let r := ",".intercalate ((List.range s.w.nSnap).map fun i => toString (s.w.ref i))
+  s!"cur={c} refs={r}"
+
+def parseJM (s : String) : Option (Nat × Nat) :=
+  match s.splitOn ":" with
+  | [j] => j.toNat?.map fun a => (a, 0)
+  | [j, m] => match j.toNat?, m.toNat? with
+    | some a, some b => some (a, b)
+    | _, _ => none
+  | _ => none
+
+def setTxn (l : List (Txn.Transaction × Bool)) (j : Nat) (v : Txn.Transaction × Bool) : List (Txn.Transaction × Bool) :=
+  l.set j v
+
+def txApply (s : TxSt) (tok : String) : Option (String × TxSt) :=
+  let c := tok.front
+  let rest := (tok.drop 1).toString
+  if tok == "N" then some ("", { s with txns := s.txns ++ [({ ts := [], finalized := false }, false)] })
+  else if c == 'T' || c == 'Z' then
+    (parseJM rest).map fun (j, m) =>
+      match s.txns[j]? with
+      | some (x, false) =>
+        if m ≥ 3 then ("skip ", s)
+        else
+          let r := Txn.addTransition s.w x m (c == 'Z')
+          ("", { w := r.1, txns := setTxn s.txns j (r.2, false) })
+      | _ => ("skip ", s)
+  else if c == 'C' || c == 'R' || c == 'L' then
+    (parseJM rest).map fun (j, _) =>
+      match s.txns[j]? with
+      | some (x, false) =>
+        if c == 'C' then
+          let r := Txn.commit s.w x
+          ("", { w := r.1, txns := setTxn s.txns j (r.2, false) })
+        else if c == 'R' then
+          let r := Txn.rollback s.w x
+          ("", { w := r.1, txns := setTxn s.txns j (r.2, false) })
+        else
+          let r := Txn.releaseAll s.w x.ts
+          ("", { w := r.1, txns := setTxn s.txns j ({ x with ts := r.2 }, true) })
+      | _ => ("skip ", s)
+  else none
+
+def runTx (toks : List String) : String :=
+  let rec go (s : TxSt) (acc : List String) : List String → Option (List String)
+    | [] => some acc.reverse
+    | t :: ts =>
+      match txApply s t with
+      | none => none
+      | some (pfx, s') => go s' ((pfx ++ txDump s') :: acc) ts
+  match go txInit [] toks with
+  | none => "bad-op"
+  | some l => " | ".intercalate l
+
+def handle (line : String) : String :=
+  match words line with
+  | "ms" :: toks => runMs toks
+  | "tx" :: toks => runTx toks
+  | _ => "bad-op"
+
+def main : IO Unit := runDriver handle
